@@ -277,6 +277,7 @@ std::string Ctx::cexpr(Constant* C)
     if (auto* G = dyn_cast<GlobalVariable>(C))
     {
         if (!reachG.count(G)) die("global not marked reachable: " + G->getName().str());
+        if (G->isThreadLocal()) return "(&" + gname(G) + "[verif_cur])";    // one copy per harness thread slot
         return "(&" + gname(G) + ")";
     }
     if (auto* F = dyn_cast<Function>(C))
